@@ -1134,6 +1134,20 @@ def gen_paths():
             for line in ([b"--input", w], [b"--input=" + w], [b"-i", w], [b"-i" + w], [b"-fi" + w], [w], [b"x", w], [b"--", w],
                          [b"--many", b"a", w], [b"--many=a," + w]):
                 out.append(case_line("dynpath", c, [b"prog"] + line, len(line)))
+    # value delimiters that are not one byte wide: the word under the cursor is split behind the LAST delimiter, at a character
+    # boundary (seeded change seed4/C18-1 assumed a one-byte delimiter and sliced inside it: panic)
+    for d in (0x3001, 0xE9, 0x1F600, ord(",")):
+        ds = chr(d).encode("utf-8")
+        c = "(cmd %s %s %s %s)" % (
+            h(b"p"),
+            arg(b"tags", "(long %s)" % h(b"tags"), "(short %d)" % ord("t"), "(action append)", "(num 1 inf)", "(delim %d)" % d,
+                "(x-pv (%s v) (%s v) (%s v))" % (h(b"alpha"), h(b"beta"), h("b\u00e9ta".encode("utf-8")))),
+            arg(b"flag", "(long %s)" % h(b"verbose"), "(action settrue)"),
+            arg(b"names", "(num 0 inf)", "(delim %d)" % d, "(x-pv (%s v) (%s v))" % (h(b"ann"), h(b"bob"))))
+        for w in (b"", b"al", b"alpha" + ds, b"alpha" + ds + b"be", ds, ds + ds, b"alpha" + ds + b"beta" + ds + b"b", b"a" + ds[:1],
+                  "b\u00e9".encode("utf-8"), b"ann" + ds + b"b", b"x" + ds + ds + b"a"):
+            for line in ([b"--tags", w], [b"--tags=" + w], [b"-t", w], [b"-t" + w], [w], [b"--verbose", w], [b"ann", w], [b"--", w]):
+                out.append(case_line("dynpath", c, [b"prog"] + line, len(line)))
     return out
 
 
